@@ -222,9 +222,9 @@ def AtLevels (t : Tbl) (x : Nat) (u : Nat) : Prop :=
 /-- **After the first loop**: both levels popped, all their nodes pending, table untouched -/
 theorem popLevels_spec (m : Mgr) (hI : Inv m) (x : Nat) (ox oy : List Nat)
     (hox : LevelOrder m.tbl x ox) (hoy : LevelOrder m.tbl (x + 1) oy) :
-    ∃ pr, (popLevel x ox >>= fun lx => popLevel (x + 1) oy >>= fun ly => pure (lx, ly)) m =
-        (.ok (ox.map (trip m.tbl), oy.map (trip m.tbl)), { m with pred := pr }) ∧
-      Mid m { m with pred := pr } x (AtLevels m.tbl x) := by
+    ∃ m1 m2, popLevel x ox m = (.ok (ox.map (trip m.tbl)), m1) ∧
+      popLevel (x + 1) oy m1 = (.ok (oy.map (trip m.tbl)), m2) ∧ m2.tbl = m.tbl ∧
+      Mid m m2 x (AtLevels m.tbl x) := by
   have hp0 : ∀ n u, m.pred[n.key]? = some u ↔ (m.tbl.node? u = some n ∧ ¬ (fun _ => False) u) := by
     intro n u; rw [hI.pred]; simp
   obtain ⟨pr1, hrun1, hpr1⟩ := popLevel_spec x ox m (fun _ => False) hp0 hox.nodup
@@ -238,8 +238,7 @@ theorem popLevels_spec (m : Mgr) (hI : Inv m) (x : Nat) (ox oy : List Nat)
       · exact h
       · obtain ⟨n', hn', hl'⟩ := (hox.mem u).mp h
         rw [hn] at hn'; cases hn'; omega)
-  refine ⟨pr2, ?_, ?_⟩
-  · rw [M.bind_ok hrun1, M.bind_ok hrun2]; rfl
+  refine ⟨_, _, hrun1, hrun2, rfl, ?_⟩
   · have hW := hI.wf.toWF
     refine ⟨⟨rfl, fun u n hn _ _ => hn, ?_, ?_, ?_, fun u n hn _ => hn, ?_⟩, fun u hu => hu, ?_,
       hI.freeGe, hI.free, hI.refOne, hI.refDom, ⟨rfl, rfl, rfl, rfl, rfl, rfl⟩⟩
